@@ -1,81 +1,202 @@
-// C05 (clause 1): penalty / augmented-Lagrangian functions equal their defining formulas (value + gradient)
-#include "sym.h"
+// C05 (clause 1): the linear-penalty, quadratic-penalty and augmented-Lagrangian functions equal their defining
+// formulas (value and full gradient) for a symbolic quadratic objective, symbolic constraints of the kinds listed in
+// the configuration (k=<kind>,<kind>,...  with kinds 0..10 in constraint_t's order), a symbolic point, penalty and
+// multipliers; at a feasible point with zero multipliers they coincide with the objective.
+#include "hcommon.h"
 #include <nano/function/penalty.h>
 using namespace nano;
+using namespace h;
 
-struct hquad_t final : function_t
+namespace
 {
-    double q0, q1, c0, c1;
-    hquad_t(double a, double b, double c, double d)
-        : function_t("quad", 2), q0(a), q1(b), c0(c), c1(d)
-    {
-        convex(convexity::yes);
-        smooth(smoothness::yes);
-    }
-    rfunction_t clone() const override { return std::make_unique<hquad_t>(*this); }
-    scalar_t do_vgrad(vector_cmap_t x, vector_map_t gx) const override
-    {
-        if (gx.size() == x.size())
-        {
-            gx(0) = q0 * x(0) + c0;
-            gx(1) = q1 * x(1) + c1;
-        }
-        return 0.5 * (q0 * x(0) * x(0) + q1 * x(1) * x(1)) + c0 * x(0) + c1 * x(1);
-    }
+struct ref_t
+{
+    bool                eq;
+    double              value;
+    std::vector<double> grad;
 };
+} // namespace
 
 extern "C" void sym_body()
 {
-    hquad_t f(sym_real("q0"), sym_real("q1"), sym_real("c0"), sym_real("c1"));
-    vector_t a(2);
-    a(0) = sym_real("a0");
-    a(1) = sym_real("a1");
-    double b = sym_real("b");
-    vector_t o(2);
-    o(0) = sym_real("o0");
-    o(1) = sym_real("o1");
-    double r = sym_pos("r");
-    double m = sym_real("m");
-    SYM_CHECK(f.constrain(constraint::linear_inequality_t{a, b}), "constrain accepts linear inequality");
-    SYM_CHECK(f.constrain(constraint::euclidean_ball_equality_t{o, r}), "constrain accepts ball");
-    SYM_CHECK(f.constrain(constraint::maximum_t{m, 0}), "constrain accepts maximum");
-    vector_t x(2);
-    x(0) = sym_real("x0");
-    x(1) = sym_real("x1");
-    double ro = sym_pos("ro");
-    double g1 = a(0) * x(0) + a(1) * x(1) + b;
-    double h1 = (x(0) - o(0)) * (x(0) - o(0)) + (x(1) - o(1)) * (x(1) - o(1)) - r * r;
-    double g2 = x(0) - m;
-    double fx = 0.5 * (f.q0 * x(0) * x(0) + f.q1 * x(1) * x(1)) + f.c0 * x(0) + f.c1 * x(1);
-    auto pos = [](double v) { return v > 0.0 ? v : 0.0; };
-    auto ab  = [](double v) { return v >= 0.0 ? v : -v; };
+    const tensor_size_t n     = cfgi("d", 2);
+    const auto          kinds = cfglist("k");
+    symquad_t           f(sym_symmetric("Q", n), sym_vector("c", n), 0.0);
+    const vector_t      x = sym_vector("x", n);
+
+    std::vector<ref_t> refs;
+    int                id = 0;
+    for (const long kind : kinds)
     {
-        auto p = quadratic_penalty_function_t(f);
-        p.penalty(ro);
-        vector_t g(2);
-        double   v = p.vgrad(x, g);
-        double   e = fx + ro * (pos(g1) * pos(g1) + h1 * h1 + pos(g2) * pos(g2));
-        SYM_EQ_(v, e, "quadratic penalty value");
-        double e0 = f.q0 * x(0) + f.c0 + ro * 2.0 * (pos(g1) * a(0) + h1 * 2.0 * (x(0) - o(0)) + pos(g2));
-        SYM_EQ_(g(0), e0, "quadratic penalty grad0");
+        const std::string s = "k" + std::to_string(id++) + "_";
+        ref_t             r;
+        r.grad.assign(static_cast<size_t>(n), 0.0);
+        bool ok = false;
+        switch (kind)
+        {
+        case 0: case 1: case 2:
+        {
+            const tensor_size_t dim = cfgi("dim", n - 1);
+            const double        v   = sym_real(s + "v");
+            if (kind == 0) ok = f.constrain(constraint::constant_t{v, dim});
+            if (kind == 1) ok = f.constrain(constraint::minimum_t{v, dim});
+            if (kind == 2) ok = f.constrain(constraint::maximum_t{v, dim});
+            r.eq                            = kind == 0;
+            r.value                         = kind == 1 ? v - x(dim) : x(dim) - v;
+            r.grad[static_cast<size_t>(dim)] = kind == 1 ? -1.0 : 1.0;
+            break;
+        }
+        case 3: case 4:
+        {
+            const vector_t o   = sym_vector((s + "o").c_str(), n);
+            const double   rad = sym_pos(s + "r");
+            if (kind == 3) ok = f.constrain(constraint::euclidean_ball_equality_t{o, rad});
+            else ok = f.constrain(constraint::euclidean_ball_inequality_t{o, rad});
+            r.eq    = kind == 3;
+            r.value = -rad * rad;
+            for (tensor_size_t i = 0; i < n; ++i)
+            {
+                r.value                       = r.value + (x(i) - o(i)) * (x(i) - o(i));
+                r.grad[static_cast<size_t>(i)] = 2.0 * (x(i) - o(i));
+            }
+            break;
+        }
+        case 5: case 6:
+        {
+            const vector_t q = sym_vector((s + "q").c_str(), n);
+            const double   b = sym_real(s + "b");
+            if (kind == 5) ok = f.constrain(constraint::linear_equality_t{q, b});
+            else ok = f.constrain(constraint::linear_inequality_t{q, b});
+            r.eq    = kind == 5;
+            r.value = b;
+            for (tensor_size_t i = 0; i < n; ++i)
+            {
+                r.value                       = r.value + q(i) * x(i);
+                r.grad[static_cast<size_t>(i)] = q(i);
+            }
+            break;
+        }
+        case 7: case 8:
+        {
+            const matrix_t P = sym_symmetric((s + "P").c_str(), n);
+            const vector_t q = sym_vector((s + "q").c_str(), n);
+            const double   b = sym_real(s + "b");
+            if (kind == 7) ok = f.constrain(constraint::quadratic_equality_t{P, q, b});
+            else ok = f.constrain(constraint::quadratic_inequality_t{P, q, b});
+            r.eq    = kind == 7;
+            r.value = quad_value(P, q, b, x);
+            for (tensor_size_t i = 0; i < n; ++i) r.grad[static_cast<size_t>(i)] = quad_grad(P, q, x, i);
+            break;
+        }
+        default:
+        {
+            const matrix_t P = sym_symmetric((s + "F").c_str(), n);
+            const vector_t q = sym_vector((s + "g").c_str(), n);
+            const double   b = sym_real(s + "h");
+            symquad_t      c(P, q, b);
+            if (kind == 9) ok = f.constrain(constraint::functional_equality_t{c});
+            else ok = f.constrain(constraint::functional_inequality_t{c});
+            r.eq    = kind == 9;
+            r.value = quad_value(P, q, b, x);
+            for (tensor_size_t i = 0; i < n; ++i) r.grad[static_cast<size_t>(i)] = quad_grad(P, q, x, i);
+            break;
+        }
+        }
+        SYM_CHECK(ok, "constrain() accepts the constraint (harness precondition)");
+        refs.push_back(r);
     }
+    SYM_CHECK(static_cast<size_t>(count_equalities(f) + count_inequalities(f)) == refs.size(), "constraint counts");
+
+    const double ro = sym_pos("ro");
+    const double fx = quad_value(f.Q, f.c, 0.0, x);
+    auto         pos = [](double v) { return v > 0.0 ? v : 0.0; };
+    auto         ab  = [](double v) { return v >= 0.0 ? v : -v; };
+    auto         sgn = [](double v) { return v >= 0.0 ? 1.0 : -1.0; };
+
+    // linear penalty: f + ro * (sum |h| + sum max(0,g)); subgradient with sign(h) (sign(0) = +1) / active g
     {
         auto p = linear_penalty_function_t(f);
         p.penalty(ro);
-        double v = p.vgrad(x);
-        double e = fx + ro * (pos(g1) + ab(h1) + pos(g2));
-        SYM_EQ_(v, e, "linear penalty value");
+        vector_t     g(n);
+        const double v  = p.vgrad(x, g);
+        const double v0 = p.vgrad(x);
+        double       e  = fx;
+        for (const auto& r : refs) e = e + ro * (r.eq ? ab(r.value) : pos(r.value));
+        SYM_EQ_(v, e, "linear penalty: value = f + ro*(sum|h| + sum max(0,g))");
+        SYM_EQ_(v0, v, "linear penalty: value-only call = value+gradient call");
+        for (tensor_size_t i = 0; i < n; ++i)
+        {
+            double eg = quad_grad(f.Q, f.c, x, i);
+            for (const auto& r : refs)
+            {
+                const double w = r.eq ? sgn(r.value) : (r.value > 0.0 ? 1.0 : 0.0);
+                eg             = eg + ro * w * r.grad[static_cast<size_t>(i)];
+            }
+            SYM_EQ_(g(i), eg, "linear penalty: gradient component");
+        }
     }
+    // quadratic penalty: f + ro * (sum h^2 + sum max(0,g)^2)
     {
-        vector_t la(1), mu(2);
-        la(0) = sym_real("la");
-        mu(0) = sym_real("mu0");
-        mu(1) = sym_real("mu1");
-        auto p = augmented_lagrangian_function_t(f, la, mu);
+        auto p = quadratic_penalty_function_t(f);
         p.penalty(ro);
-        double v = p.vgrad(x);
-        double e = fx + 0.5 * ro * (pos(g1 + mu(0) / ro) * pos(g1 + mu(0) / ro) + (h1 + la(0) / ro) * (h1 + la(0) / ro) +
-                                    pos(g2 + mu(1) / ro) * pos(g2 + mu(1) / ro));
-        SYM_EQ_(v, e, "augmented lagrangian value");
+        vector_t     g(n);
+        const double v  = p.vgrad(x, g);
+        const double v0 = p.vgrad(x);
+        double       e  = fx;
+        for (const auto& r : refs) e = e + ro * (r.eq ? r.value * r.value : pos(r.value) * pos(r.value));
+        SYM_EQ_(v, e, "quadratic penalty: value = f + ro*(sum h^2 + sum max(0,g)^2)");
+        SYM_EQ_(v0, v, "quadratic penalty: value-only call = value+gradient call");
+        for (tensor_size_t i = 0; i < n; ++i)
+        {
+            double eg = quad_grad(f.Q, f.c, x, i);
+            for (const auto& r : refs) eg = eg + 2.0 * ro * (r.eq ? r.value : pos(r.value)) * r.grad[static_cast<size_t>(i)];
+            SYM_EQ_(g(i), eg, "quadratic penalty: gradient component");
+        }
+    }
+    // augmented lagrangian: f + ro/2 * (sum (h + la/ro)^2 + sum max(0, g + mu/ro)^2)
+    {
+        const auto neq = count_equalities(f), nineq = count_inequalities(f);
+        vector_t   la = sym_vector("la", neq), mu = sym_vector("mu", nineq);
+        auto       p  = augmented_lagrangian_function_t(f, la, mu);
+        p.penalty(ro);
+        vector_t      g(n);
+        const double  v  = p.vgrad(x, g);
+        const double  v0 = p.vgrad(x);
+        double        e  = fx;
+        tensor_size_t ie = 0, ii = 0;
+        std::vector<double> w;
+        for (const auto& r : refs)
+        {
+            const double t = r.eq ? r.value + la(ie++) / ro : pos(r.value + mu(ii++) / ro);
+            w.push_back(t);
+            e = e + 0.5 * ro * t * t;
+        }
+        SYM_EQ_(v, e, "augmented lagrangian: value = f + ro/2*(sum (h+la/ro)^2 + sum max(0,g+mu/ro)^2)");
+        SYM_EQ_(v0, v, "augmented lagrangian: value-only call = value+gradient call");
+        for (tensor_size_t i = 0; i < n; ++i)
+        {
+            double eg = quad_grad(f.Q, f.c, x, i);
+            for (size_t k = 0; k < refs.size(); ++k) eg = eg + ro * w[k] * refs[k].grad[static_cast<size_t>(i)];
+            SYM_EQ_(g(i), eg, "augmented lagrangian: gradient component");
+        }
+    }
+    // feasible point, zero multipliers: all three coincide with the objective
+    {
+        bool feasible = true;
+        for (const auto& r : refs) feasible = feasible && (r.eq ? r.value == 0.0 : r.value <= 0.0);
+        if (feasible)
+        {
+            vector_t la = vector_t::zero(count_equalities(f)), mu = vector_t::zero(count_inequalities(f));
+            auto     p1 = linear_penalty_function_t(f);
+            auto     p2 = quadratic_penalty_function_t(f);
+            auto     p3 = augmented_lagrangian_function_t(f, la, mu);
+            p1.penalty(ro);
+            p2.penalty(ro);
+            p3.penalty(ro);
+            SYM_EQ_(p1.vgrad(x), fx, "feasible point: linear penalty = objective");
+            SYM_EQ_(p2.vgrad(x), fx, "feasible point: quadratic penalty = objective");
+            SYM_EQ_(p3.vgrad(x), fx, "feasible point, zero multipliers: augmented lagrangian = objective");
+            SYM_CHECK(f.valid(x), "feasible point: function_t::valid(x) agrees");
+        }
     }
 }
